@@ -50,7 +50,7 @@ theorem skel_handleOutChans_shape :
   "  if err != nil",
   "    continue",
   "  if err := c.sendRequest(request{ Jsonrpc: \"2.0\", ID: nil, Method: chValue, Params: rp, }); err != nil",
-  "    return"] := rfl
+  "    continue"] := rfl
 
 /-- `makeOutChan`: the sink callback (close ↦ `close(incoming)`; value ↦ unmarshal, discard if the context is cancelled, else send into `incoming` or discard on cancel) and the buffer goroutine (select over context, `incoming`, and the send of the list head; closes the caller channel on cancel or when `incoming` is closed and the list is empty). -/
 theorem skel_makeOutChan_shape :
